@@ -4,7 +4,8 @@ The decision table lives in Admission.tla.  Cases: list files of up to 4 lines o
 ^prefix, suffix$, ^exact$, alternation, comment, blank, invalid regex} for both lists x names that
 hit / miss x values incl. NaN/inf x timestamps incl. -1, 0, fractional, negative x resolutions
 0/1/10/60, each sent through the real line, UDP and pickle listeners with real list files loaded
-by the real WhiteList/BlackList objects; recorder + the two counters are the observation and
+by the real WhiteList/BlackList objects (present at start-up, created afterwards, or rewritten while
+running - the 10 s re-read task runs on a private clock); recorder + the two counters are the observation and
 TLC evaluates the table for every case (the small combinations exhaustively, then random).
 """
 import itertools
@@ -89,18 +90,37 @@ class Adm(object):
     self.ft = FT()
     self.wm.protocols.time = self.ft
 
-  def load(self, obj, lines):
+  def load(self, obj, lines, mode='direct'):
+    """Puts `lines` in force through the real loader.  mode: 'direct' - the file exists when read_from() is
+    called; 'late' - the daemon starts without the file, it is created afterwards and the 10 s re-read task
+    (on a private clock) picks it up; 'rewrite' - another list is in force first, the file is then rewritten."""
     self.nfile += 1
     path = os.path.join(self.dir, 'list%d.conf' % self.nfile)
-    with open(path, 'w') as fh:
-      for p in lines:
-        fh.write(render(p) + '\n')
-    obj.read_task.clock = task.Clock()
+
+    def write(ls, mtime):
+      with open(path, 'w') as fh:
+        for p in ls:
+          fh.write(render(p) + '\n')
+      os.utime(path, (mtime, mtime))
+    clock = task.Clock()
     if obj.read_task.running:
       obj.read_task.stop()
+    obj.read_task.clock = clock
     obj.rules_last_read = 0.0
-    obj.read_from(path)          # the real loader (the 10 s re-read task sits on a private clock)
-    os.unlink(path) if False else None
+    if mode == 'direct':
+      write(lines, 1000.0)
+      obj.read_from(path)
+    elif mode == 'late':
+      obj.read_from(path)
+      clock.advance(10)
+      write(lines, 2000.0)
+      clock.advance(10)
+    else:
+      write([dict(k='sub', lits=[enc('x')]), dict(k='prefix', lits=[enc('a')])], 1000.0)
+      obj.read_from(path)
+      clock.advance(10)
+      write(lines, 2000.0)
+      clock.advance(10)
 
   def send(self, proto, name, ts, value, res):
     wm = self.wm
@@ -130,8 +150,8 @@ def cases(ctx, adm, rng, n):
     nbl, nwl = rng.randint(0, 3), rng.randint(0, 3)
     bl = [gen_line(rng) for _ in range(nbl)]
     wl = [gen_line(rng) for _ in range(nwl)]
-    adm.load(adm.rl.BlackList, bl)
-    adm.load(adm.rl.WhiteList, wl)
+    adm.load(adm.rl.BlackList, bl, rng.choice(['direct', 'direct', 'late', 'rewrite']))
+    adm.load(adm.rl.WhiteList, wl, rng.choice(['direct', 'direct', 'late', 'rewrite']))
     for _ in range(6):
       name = gen_name(rng, bl + wl)
       value = rng.choice([1.5, -2.0, 0.0, float('inf'), float('-inf'), float('nan'), float('nan'), 42])
